@@ -154,6 +154,10 @@ def tryShrinkBack (c : Chan) : Chan :=
   else if c.back.availData = 0 then { c with back := c.back.shrink c.init }
   else c
 
+/-- reclaim the bytes of already-returned messages when the buffer has no free tail -/
+def reclaimIfFull (c : Chan) : Chan :=
+  if c.front.availSpace = 0 then { c with front := c.front.shift } else c
+
 /-- `readable()`: "try to grow the buffer before giving up" -/
 def growFrontIfFull (c : Chan) : Chan :=
   if c.front.availSpace = 0 then
@@ -162,7 +166,7 @@ def growFrontIfFull (c : Chan) : Chan :=
     | none => c
   else c
 
-/-- the loop of `readable()`; `rq` = bytes queued in the kernel, `closed` =
+/-- the loop of `readable()` (entered, and re-entered, after the reclaiming shift); `rq` = bytes queued in the kernel, `closed` =
     peer hung up (a read on an empty queue then returns `Ok(0)`). -/
 def readableLoop (closed : Bool) : Nat → Chan → Bytes → Nat → Chan × Bytes × Except Err Nat
   | 0, c, rq, count => (c, rq, .ok count)
@@ -181,12 +185,12 @@ def readableLoop (closed : Bool) : Nat → Chan → Bytes → Nat → Chan × By
           -- `read(&mut [])` returns Ok(0): treated as end of stream by the code
           ({ c1 with inR := false, inW := false, rdR := false, rdHup := true }, rq, .error .noByteToRead)
         else
-          readableLoop closed fuel { c1 with front := c1.front.fill (rq.take n) } (rq.drop n) (count + n)
+          readableLoop closed fuel (reclaimIfFull { c1 with front := c1.front.fill (rq.take n) }) (rq.drop n) (count + n)
 
 /-- `readable()` -/
 def readable (c : Chan) (rq : Bytes) (closed : Bool) : Chan × Bytes × Except Err Nat :=
   if !(c.inR && c.rdR) then (c, rq, .error .conn)
-  else readableLoop closed (rq.length + 2) c rq 0
+  else readableLoop closed (rq.length + 2) c.reclaimIfFull rq 0
 
 /-- the loop of `writable()`; returns the bytes the kernel accepted. -/
 def writableLoop : List Nat → Chan → Bytes → Nat → Chan × Bytes × Except Err Nat
@@ -245,11 +249,6 @@ def writeMessage (c : Chan) (payload : Bytes) : Chan × Except Err Unit :=
   | (c1, .ok ()) => ({ c1 with inW := true }, .ok ())
   | (c1, .error e) => (c1, .error e)
 
-/-- fix F10: before growing or giving up, reclaim the bytes of already-returned
-    messages that still sit in front of the pending data -/
-def reclaimIfFull (c : Chan) : Chan :=
-  if c.front.availSpace = 0 then { c with front := c.front.shift } else c
-
 /-- the tail of `try_read_delimited_message` after the reclaiming shift -/
 def tryReadTailCore (c : Chan) : Chan × Except Err (Option Bytes) :=
   if c.front.availSpace = 0 then
@@ -281,7 +280,7 @@ def tryRead (decodes : Bytes → Bool) (c : Chan) : Chan × Except Err (Option B
 /-- `read_message` in non-blocking mode -/
 def readMessage (decodes : Bytes → Bool) (c : Chan) : Chan × Except Err Bytes :=
   match tryRead decodes c with
-  | (c1, .ok (some m)) => (tryShrinkFront c1, .ok m)
+  | (c1, .ok (some m)) => ({ tryShrinkFront c1 with inR := true }, .ok m)
   | (c1, .ok none) => ({ c1 with inR := true }, .error .nothingRead)
   | (c1, .error e) => (c1, .error e)
 
